@@ -1222,5 +1222,8 @@ func (x *Exec) appendCap() int {
 	if x.ord != nil {
 		return maxConcreteList
 	}
+	if x.curFuzzy {
+		return 0 // a list grown in a loop of unknown length: one cell per element says nothing
+	}
 	return 3
 }
